@@ -133,12 +133,16 @@ unsigned long smtpcode()
 {
   unsigned char ch;
   unsigned long code;
+  int flagdigits = 1;
 
   if (!stralloc_copys(&smtptext,"")) temp_nomem();
 
   get(&ch); code = ch - '0';
+  if (ch < '0' || ch > '9') flagdigits = 0;
   get(&ch); code = code * 10 + (ch - '0');
+  if (ch < '0' || ch > '9') flagdigits = 0;
   get(&ch); code = code * 10 + (ch - '0');
+  if (ch < '0' || ch > '9') flagdigits = 0;
   for (;;) {
     get(&ch);
     if (ch != '-') break;
@@ -149,6 +153,8 @@ unsigned long smtpcode()
   }
   while (ch != '\n') get(&ch);
 
+  /* a reply that does not start with three digits is never an acceptance */
+  if (!flagdigits) return 599;
   return code;
 }
 
